@@ -27,6 +27,14 @@ CHECKS = {
         technique="deterministic simulation of compile histories with rejected-compilation faults in forked pristine interpreters per hash seed; fresh-interpreter oracle",
         ref="6/C11",
     ),
+    "C13": dict(
+        level="exploration",
+        engine="session",
+        text="History exploration without a clock: each run forks a pristine interpreter (so first use really is first; flavours with and without cohdl.std imported; 4 hash seeds) and executes a seeded history of type requests in arbitrary order and repetition, failing requests as injected faults, object / view creation (slices, indices, iteration, typed views, views of views) and writes through views. After EVERY operation an identity / lattice / bit-array model is compared: same parameters -> identical class, issubclass for ALL pairs of classes created so far, isinstance for all objects, view root / canonical view type / value read through every view, and the code-generation reference of every view names the same bits as the Python alias.",
+        note="Sequential, model-based end of the technique: the explored nondeterminism is operation order, failed operations and hash seed. Only 'downto' vectors. Trusted: the lattice model written from the statement.",
+        technique="seeded history simulation (order of first use, failing requests, hash seed) in forked pristine interpreters; refinement of an identity/lattice/bit-array model after every step",
+        ref="6/C13",
+    ),
 }
 
 NOT_APPLICABLE = {
